@@ -1,5 +1,6 @@
 import Cel.Drv.Util
 import Cel.Model.Num
+import Cel.Model.Num2
 namespace Cel.Drv.C01
 open Cel Cel.Drv
 
@@ -44,6 +45,44 @@ def dblOp (op : String) (a b : Float) : Option String :=
     | .host => some (showBits (a / b))
   | _ => none
 
+/-- the host float of the Lean runtime (C double), with the zero-divisor branch decided by the class-level
+model `pyDivideByZero` (celtypes._ieee_divide_by_zero) -/
+def floatOfCls : DCls → Float
+  | .nan => 0.0 / 0.0
+  | .inf .pos => 1.0 / 0.0 | .inf .neg => -1.0 / 0.0
+  | .zero .pos => 0.0 | .zero .neg => -0.0
+  | .fin .pos => 1.0 | .fin .neg => -1.0        -- never produced by pyDivideByZero
+def signOfFloat (x : Float) : Sign := if (x.toBits >>> 63) = 1 then .neg else .pos
+def hostLean : HostFloat Float where
+  neg := fun x => -x
+  add := (· + ·)
+  sub := (· - ·)
+  mul := (· * ·)
+  div := (· / ·)
+  isZero := fun x => x == 0.0
+  divZero := fun x z => floatOfCls (pyDivideByZero (clsOfFloat x) (signOfFloat z))
+
+/-- the DoubleType dunders of the model on bit patterns (a: left operand, b: right operand) -/
+def dblOp2 (op : String) (a b : Float) : Option String :=
+  match op with
+  | "add" => some (showBits (DoubleOps.add hostLean a b)) | "sub" => some (showBits (DoubleOps.sub hostLean a b))
+  | "mul" => some (showBits (DoubleOps.mul hostLean a b)) | "div" => some (showBits (DoubleOps.truediv hostLean a b))
+  | "neg" => some (showBits (DoubleOps.neg hostLean a))
+  -- reflected: a is the LEFT (native) operand, b is `self`
+  | "radd" => some (showBits (DoubleOps.radd hostLean b a)) | "rsub" => some (showBits (DoubleOps.rsub hostLean b a))
+  | "rmul" => some (showBits (DoubleOps.rmul hostLean b a)) | "rdiv" => some (showBits (DoubleOps.rtruediv hostLean b a))
+  | _ => none
+
+/-- prefix notation for double trees: `lit <bits> | neg A | add A B | sub A B | mul A B | div A B` -/
+partial def parseD : List String → Option (DExpr Float × List String)
+  | "lit" :: z :: rest => z.toNat?.map fun n => (.lit (Float.ofBits n.toUInt64), rest)
+  | "neg" :: rest => do let (a, r) ← parseD rest; pure (.neg a, r)
+  | op :: rest => do
+      let o ← (match op with
+        | "add" => some DOp.add | "sub" => some .sub | "mul" => some .mul | "div" => some .div | _ => none)
+      let (a, r1) ← parseD rest; let (b, r2) ← parseD r1; pure (.bin o a b, r2)
+  | [] => none
+
 /-- prefix notation: `lit z | neg A | add A B | sub A B | mul A B | div A B | mod A B` -/
 partial def parseA : List String → Option (AExpr × List String)
   | "lit" :: z :: rest => (parseInt? z).map fun z => (.lit z, rest)
@@ -58,6 +97,13 @@ partial def parseA : List String → Option (AExpr × List String)
 def handle : Handler
   | "x" :: rest => match parseA rest with
       | some (e, []) => showInt (evalA e) | _ => "bad-op"
+  | "ux" :: rest => match parseA rest with
+      | some (e, []) => showInt (evalU e) | _ => "bad-op"
+  | "dx" :: rest => match parseD rest with
+      | some (e, []) => showBits (evalD hostLean e) | _ => "bad-op"
+  | ["d2", op, a, b] => match a.toNat?, b.toNat? with
+      | some a, some b => (dblOp2 op (Float.ofBits a.toUInt64) (Float.ofBits b.toUInt64)).getD "bad-op"
+      | _, _ => "bad-op"
   | ["i", op, a, b] => match parseInt? a, parseInt? b with
       | some a, some b => (intOp op a b).map showInt |>.getD "bad-op"
       | _, _ => "bad-op"
